@@ -1,2 +1,7 @@
 """File operations over SimFS (C01-C07, C09, C13 file clause). Filled in below."""
 from __future__ import annotations
+
+
+def twin_write(sess, game, A, B, op):
+    """Filled in with the file ops: returns (None, None, None) until the writers' oracles exist."""
+    return None, None, None
